@@ -24,7 +24,7 @@ SO = {"threads": 1, "time_limit": 20}
 
 FLOWCLS = W.FD + W.ERR
 KINDS = ["non_string_nodes", "cyclic_for_dag", "no_source", "no_sink", "negative_weight", "missing_weight", "non_conserving", "constraint_absent_edge",
-         "constraint_not_list", "constraint_entry_none", "constraint_entry_number", "constraint_mixed_node_string", "nonfinite_weight", "coverage_invalid_without_constraints", "slightly_non_conserving", "constraint_empty", "constraint_not_tuples", "constraint_edge_as_list", "k_zero_superset", "k_negative_superset", "coverage_zero", "coverage_negative", "coverage_above_one", "coverage_nan",
+         "constraint_not_list", "constraint_entry_none", "constraint_entry_number", "constraint_mixed_node_string", "nonfinite_weight", "coverage_invalid_without_constraints", "slightly_non_conserving", "non_conserving_zero_side", "constraint_empty", "constraint_not_tuples", "constraint_edge_as_list", "k_zero_superset", "k_negative_superset", "coverage_zero", "coverage_negative", "coverage_above_one", "coverage_nan",
          "coverage_above_one_with_length", "coverage_nan_with_length", "coverage_inf_with_length", "coverage_length_zero", "coverage_length_above_one", "coverage_length_nan", "coverage_length_without_attr", "k_zero", "k_negative",
          "weight_type_str", "weight_type_complex", "weight_type_bool", "weight_type_subclass", "origin_unknown", "unknown_start", "unknown_end", "scale_above_one", "scale_negative", "ignore_malformed",
          "plr_mismatch", "plf_float", "empty_graph"]
@@ -39,7 +39,7 @@ def applicable(cls, kind, inst, meta):
         return cyc and not kw.get("additional_starts") and not kw.get("additional_ends")
     if kind in ("negative_weight", "missing_weight"):
         return not cover
-    if kind == "non_conserving":
+    if kind in ("non_conserving", "non_conserving_zero_side"):
         return cls in ("kFlowDecomp", "MinFlowDecomp", "MinFlowDecompCycles") and not node and "elements_to_ignore" not in kw
     if kind == "constraint_empty":
         return True
@@ -82,7 +82,7 @@ def mutate(kind, cls, inst, meta, rng):
     special = None
     # elements that do not count: explicitly ignored ones and those with error scale 0 (documented as equivalent to ignoring)
     ign = [x for x in (kw.get("elements_to_ignore") or [])] + [e for e, f in (kw.get("error_scaling") or []) if f == 0]
-    if kind in ("negative_weight", "missing_weight", "non_conserving"):
+    if kind in ("negative_weight", "missing_weight", "non_conserving", "non_conserving_zero_side"):
         # with a percentile-based ignore list the mutated element could itself fall below the percentile and be (legitimately) ignored
         kw.pop("elements_to_ignore_percentile", None)
     if kind == "non_string_nodes":
@@ -130,6 +130,17 @@ def mutate(kind, cls, inst, meta, rng):
         for e in sp["edges"]:
             if e[1] == v:
                 e[2]["flow"] = e[2]["flow"] + 3; break
+    elif kind == "non_conserving_zero_side":
+        # every edge on ONE side of an inner node carries 0 while the other side carries something: still an imbalance
+        G = gen.build(sp)
+        inner = [v for v in G.nodes if G.in_degree(v) and G.out_degree(v) and not G.has_edge(v, v)]
+        inner = [v for v in inner if sum(d.get("flow", 0) or 0 for _, _, d in G.out_edges(v, data=True)) > 0 and sum(d.get("flow", 0) or 0 for _, _, d in G.in_edges(v, data=True)) > 0]
+        if not inner:
+            return None
+        v = rng.choice(inner); side = rng.choice(["in", "out"])
+        for e in sp["edges"]:
+            if (side == "in" and e[1] == v) or (side == "out" and e[0] == v):
+                e[2]["flow"] = 0 if kw.get("weight_type") == "int" else 0.0
     elif kind == "constraint_absent_edge":
         kw[ckey] = (kw.get(ckey) or []) + [[["zz_absent", sp["nodes"][0][0]]]]
     elif kind == "constraint_not_list":
